@@ -3,8 +3,9 @@ import PartituraModel.Model.Durations
 import PartituraModel.Model.Measures
 import PartituraModel.Model.Rests
 import PartituraModel.Model.Tuplets
+import PartituraModel.Model.Sanitize
 
-open Wire Model Model.Dur Model.Meas Model.Rests Model.Tup
+open Wire Model Model.Dur Model.Meas Model.Rests Model.Tup Model.San
 
 def fmtSym (sd : Gen.SymDur) : String :=
   fmtTuple [sd.1, fmtNat sd.2.1, fmtOpt fmtNat sd.2.2.1, fmtOpt fmtNat sd.2.2.2]
@@ -99,8 +100,48 @@ def sortTuplets (ns : List Note) (l : List (Nat × Nat)) : List (Nat × Nat) :=
     (acc.takeWhile fun a => startOf a ≤ startOf t) ++ t :: (acc.dropWhile fun a => startOf a ≤ startOf t)
   l.foldl ins []
 
+def parseGNext : P GNext := do
+  let t ← tok
+  match t with
+  | "N" => pure .none
+  | "G" => do let k ← nat; pure (.grace k)
+  | "M" => do let k ← nat; pure (.note k)
+  | _ => P.fail
+
+def parseGrace : P Grace := do
+  let k ← nat; let s ← nat; let v ← opt int; let nx ← parseGNext
+  pure ⟨k, s, v, nx⟩
+
+def parseSpanB : P Span := do let k ← nat; let a ← bool; let b ← bool; pure (k, a, b)
+
+def fmtGNext : GNext → String
+  | .none => "-"
+  | .grace k => "g" ++ fmtNat k
+  | .note k => "n" ++ fmtNat k
+
+def fmtSoundRow (r : SoundRow) : String :=
+  fmtTuple [fmtNat r.1, fmtNat r.2.1, fmtOpt fmtInt r.2.2.1, fmtOpt fmtInt r.2.2.2.1, r.2.2.2.2.getD "-"]
+
+def fmtTies (out : List Note) : String :=
+  fmtList (fun n => fmtTuple [fmtRef out (some n.key), fmtRef out n.tiePrev, fmtRef out n.tieNext]) out
+
 def handle (ts : List String) : String :=
   match ts with
+  | "snd" :: rest =>
+    -- the rows of the note array of a note list: (onset, duration_tied, midi pitch, voice, id)
+    orErr <| (run (list parseNote) rest).map fun ns => fmtList fmtSoundRow (soundingMidi ns)
+  | "sanp" :: rest =>
+    -- the whole of sanitize_part
+    orErr <| (run (do let tol ← opt nat; let ns ← list parseNote; let gs ← list parseGrace; let tu ← list parseSpanB
+                      let sl ← list parseSpanB; pure (tol, ns, gs, tu, sl)) rest).map fun (tol, ns, gs, tu, sl) =>
+      -- `-` = called without tie_tolerance: the default of the signature (Gen/C11Consts.lean)
+      let out := sanitizePart ⟨ns, gs, [], tu, sl⟩ (tol.getD Gen.C11.sanitizeTieTolerance)
+      fmtTuple [fmtTies out.notes,
+                fmtList (fun g => fmtTuple [fmtNat g.key, fmtGNext g.next]) (keptGraces out),
+                fmtList fmtNat out.removed,
+                fmtList (fun t => fmtNat t.1) out.tuplets,
+                fmtList (fun t => fmtNat t.1) out.slurs,
+                fmtList fmtSoundRow (soundingMidi out.notes)]
   | "tupl" :: rest =>
     -- find_tuplets on notes whose symbolic_duration is the stored value (None = no symbolic duration)
     orErr <| (run (do let p ← parsePart; let ns ← list parseNote; pure (p, ns)) rest).map fun (p, ns) =>
@@ -148,6 +189,13 @@ def handle (ts : List String) : String :=
         | .found l => fmtPieces l
         | .exhausted => "-"
         | .outOfFuel => "fuel"
+  | "splitd" :: rest =>
+    -- find_tie_split without max_splits: the default of the signature (Gen/C11Consts.lean)
+    orErr <| (run (do let s ← nat; let e ← nat; let d ← nat; pure (s, e, d)) rest).map
+      fun (s, e, d) => match findTieSplit s e d Gen.C11.findTieSplitMaxSplits 2000000 with
+        | .found l => fmtPieces l
+        | .exhausted => "-"
+        | .outOfFuel => "fuel"
   | "tid" :: rest => orErr <| (run str rest).map fun s => (makeTiedNoteId s).getD "-"
   | "addm" :: rest =>
     orErr <| (run parsePart rest).map fun p =>
@@ -166,6 +214,9 @@ def handle (ts : List String) : String :=
   | "tupc" :: rest =>
     orErr <| (run (do let p ← parsePart; let ns ← list parseNote; pure (p, ns)) rest).map fun (p, ns) =>
       fmtNat (tupletCandidates p.qd ns).length
+  | "sand" :: rest =>
+    -- sanitize_part(part) without tie_tolerance: the default of the signature (Gen/C11Consts.lean)
+    orErr <| (run (list parseNote) rest).map fun ns => fmtTies (sanitizeTies ns Gen.C11.sanitizeTieTolerance)
   | "san" :: rest =>
     orErr <| (run (do let tol ← nat; let ns ← list parseNote; pure (tol, ns)) rest).map fun (tol, ns) =>
       let out := sanitizeTies ns tol
